@@ -3,9 +3,12 @@ CFG = {'assumptions': ['f64 inputs and outputs cross the boundary as bit pattern
                  'Rust f64 ops are IEEE-754',
                  'geographiclib-rs (Karney direct/inverse) is an engine parameter of the model: its accuracy is '
                  "observed through geo's API, not proved",
-                 'libm sin/cos/tan/atan2/asin/ln are engine parameters of the model'],
- 'count': {'quick': 80000, 'thorough': 3000000},
- 'lean_files': ['GeoModel/Geodesy.lean', 'GeoModel/Ops/C16.lean'],
+                 'libm sin/cos/tan/atan2/asin/ln are engine parameters of the model; for Haversine distance, bearing '
+                 'and destination the driver instantiates them with truncated series / Newton iterations on a '
+                 '2^-100 rational grid (GeoModel/GeodesyNum.lean, accuracy not proved) and demands agreement with '
+                 'the implementation to 1e-9 relative / a tenth of the millimetre tolerance'],
+ 'count': {'quick': 30000, 'thorough': 1500000},
+ 'lean_files': ['GeoModel/Geodesy.lean', 'GeoModel/GeodesyNum.lean', 'GeoModel/Ops/C16.lean'],
  'rule': 'metric space in {Haversine, HaversineMeasure::new(R), Geodesic (WGS84), GeodesicMeasure::new(a, f), Rhumb} x '
          '{pair (a, b, ratio): distance both ways and to self, bearing both ways, round trip, ratio point, ratio 0/1; '
          'destination (a, bearing in [-720, 1080], distance in [-1e6, 9e6] m, +360k and reversed variants); '
@@ -23,6 +26,9 @@ CFG = {'assumptions': ['f64 inputs and outputs cross the boundary as bit pattern
                   'symmetry, zero and the bearing range are demanded',
                   'points_along_line step counts of Haversine/Rhumb (total computed internally from a second '
                   'formula) are skipped when total/max is within rounding of an integer (near-tie)',
+                  'the Rhumb formulas and the Haversine intermediate-point formula of the model are used by the '
+                  'theorems only; they are not evaluated by the driver (no model/implementation comparison of '
+                  'their values beyond the identities checked on the implementation side)',
                   'the formulas themselves (spherical trigonometry, loxodrome) are not proved correct: the inverse '
                   'relationship is checked on the implementation\'s values']}
 
